@@ -41,7 +41,7 @@ def make_cases(seed, tier):
     for m in gen.METHODS + [None]:
         fm = m or "yescrypt"
         for nr in nrs:
-            for pat in ["rnd", "ff", "zero"]:
+            for pat in (["rnd", "ff", "zero"] if tier == "quick" else ["rnd", "ff", "zero"] + ["rnd%d" % k for k in range(9)]):
                 rng = rt.rng_for(seed, PID, m, nr, pat)
                 kind, prefix = ("null", None) if m is None else rng.choice(prefix_variants(rng, m))
                 count = cheap_count(rng, fm)
@@ -219,7 +219,7 @@ def run(tier):
     cases = make_cases(run_.seed, tier)
     for acc in pool.pmap(do_chunk, pool.chunks(cases, 24)):
         run_.merge(acc)
-    ns = 20 if tier == "quick" else 200
+    ns = 20 if tier == "quick" else 1500
     for acc in pool.pmap(do_static, [(run_.seed * 50 + i, ns) for i in range(16)]):
         run_.merge(acc)
     a = run_.acc
